@@ -398,6 +398,46 @@ func runC09(c *config) {
 			o.Pass("through_parser")
 		}
 	}
+	// 8. a literal whose width comes from the first operand of its instruction, that operand being the result of a
+	// conversion defined further down in the text (the parser types results before it translates bodies): the
+	// literal is read at the width the conversion produces, not at the width it consumes
+	for i := 0; i < 120*c.scale; i++ {
+		a, bw := uint64(1+r.intn(40)), uint64(1+r.intn(40))
+		op := "zext"
+		switch {
+		case a == bw:
+			bw = a + 1 + uint64(r.intn(8))
+		case a > bw:
+			op = "trunc"
+		}
+		if op == "zext" && r.coin() {
+			op = "sext"
+		}
+		n := 1 + r.intn(int((bw+3)/4))
+		x := new(big.Int).SetUint64(r.next() >> uint(64-4*min(n, 16)))
+		hex := strings.ToUpper(x.Text(16))
+		lit := []string{"s0x" + hex, "u0x" + hex, x.String()}[r.intn(3)]
+		res, want := c09Parse(bw, lit)
+		if res == "Err" || want == nil {
+			continue
+		}
+		src := fmt.Sprintf("define i%d @f(i%d %%b) {\nentry:\n\tbr label %%def\nuse:\n\t%%y = xor i%d %%r, %s\n\tret i%d %%y\ndef:\n\t%%r = %s i%d %%b to i%d\n\tbr label %%use\n}\n", bw, a, bw, lit, bw, op, a, bw)
+		var got *big.Int
+		oc, msg := guard(func() error {
+			m, err := asm.ParseString("c09fw.ll", src)
+			if err != nil {
+				return err
+			}
+			got = m.Funcs[0].Blocks[1].Insts[0].(*ir.InstXor).Y.(*constant.Int).X
+			return nil
+		})
+		o.Stat("literal_after_forward_conversion")
+		if oc != ocOk || got.Cmp(want) != 0 {
+			o.Fail("through_parser", "", "a literal next to the result of a conversion defined later in the text is not read at the result's width", map[string]interface{}{"src": src, "want": want.String(), "got": fmt.Sprint(got), "msg": msg})
+		} else {
+			o.Pass("through_parser")
+		}
+	}
 	o.Sample(map[string]interface{}{"width": 16, "value": "65535", "printed": func() string { _, l := c09Ident(16, big.NewInt(65535)); return l }()})
 	o.Sample(map[string]interface{}{"width": 64, "literal": "s0xFFFFFFFFFFFFFFFF", "parsed": func() string { r, _ := c09Parse(64, "s0xFFFFFFFFFFFFFFFF"); return r }()})
 }
